@@ -380,7 +380,10 @@ pub fn make_module() -> KMap {
             (KValue::List(l), [f]) if f.is_callable() => {
                 let l = l.clone();
 
-                let sorted = sort_by_key(ctx.vm, l.data().as_ref(), f.clone())?;
+                // The key function is called with a copy of the list's values,
+                // it might access the list while it's being called.
+                let values = l.data().clone();
+                let sorted = sort_by_key(ctx.vm, &values, f.clone())?;
 
                 for (target_value, (_key, source_value)) in
                     l.data_mut().iter_mut().zip(sorted.into_iter())
